@@ -222,7 +222,7 @@ fn case(seed: u64, lane: Lane, trace: bool) -> CaseOut {
                             let pto3 = 3 * m.max_pto_ns.max(m.pto_at_last_event_ns).max(1);
                             // (a late wake-up can delay both the event that restarted the timer
                             // and the servicing of the timer itself)
-                            let late = 2 * h.drv.timer_late_ns + 2_000_000;
+                            let late = 4 * h.drv.timer_late_ns + 2_000_000;
                             if t > restart + idle.max(pto3) + late {
                                 msgs.push(format!(
                                     "{me}: TimedOut at {t} ns, {} ns after the last event that restarts the idle timer; bound max(idle {idle}, 3xPTO {pto3}) + {late}",
